@@ -825,11 +825,14 @@ class Gen:
                     fresh = gen_rules(r, sorted(self.svc_now))
                     donor = fresh[sorted(fresh)[0]] if fresh else {}
                     rl = self.rules_now[nm]
-                    if donor and r.random() < 0.7:
+                    if donor and r.random() < 0.5:
                         key = r.choice(sorted(donor))
                         rl[key] = donor[key]
                     elif rl:
-                        del rl[r.choice(sorted(rl))]
+                        # a criterion goes (one that is not a string among them: the address, the trust flag)
+                        pref = [kk for kk in ("address", "trust_username") if kk in rl]
+                        del rl[r.choice(pref) if pref and r.random() < 0.5 else r.choice(sorted(rl))]
+                        self.fire("cfg_rule_criterion_removed")
                 elif k < 0.9:
                     fresh = gen_rules(r, sorted(self.svc_now))
                     for nm in sorted(fresh)[:2]:
